@@ -1318,6 +1318,12 @@ pub fn is_type_parameter_used_in_type(
             is_type_parameter_used_in_type(type_parameters, &ty.elem)
         }
 
+        // A type in parentheses, or one arriving as an invisible group (a `$t:ty` macro fragment).
+        syn::Type::Paren(syn::TypeParen { elem, .. })
+        | syn::Type::Group(syn::TypeGroup { elem, .. }) => {
+            is_type_parameter_used_in_type(type_parameters, elem)
+        }
+
         _ => false,
     }
 }
